@@ -211,6 +211,14 @@ def _wire_case(case: dict[str, Any], out: CaseOut) -> None:
                 pending = 0
                 try:
                     got2 = conn.cmd(extra)
+                    if got2.startswith(b'+') and b' AUTHENTICATE' in \
+                            extra.upper() and not conn.done:
+                        # a SASL exchange among the follow-up lines: end it
+                        # with something that cannot succeed
+                        cont = [b'*', b'=', b'', b'/w==', b'AGEAYg=='][
+                            len(extra) % 5]
+                        got2 += conn.cmd(cont + b'\r\n')
+                        out.label('failed-sasl-exchange-in-follow-up')
                 except NoQuiescence:
                     out.fail('no-quiescence', f'{extra[:200]!r}')
                     break
@@ -833,7 +841,15 @@ def strategy(tier: str) -> Any:
                                st.sampled_from([b'AP8A/g==', b'//4=', b'/w==',
                                                 b'AGFsaWNlAP8=', b'='])),
                      max_size=3)
-    more = st.lists(line, max_size=6)
+    # either arbitrary follow-up lines or a run of lines that are all
+    # answered BAD, failed SASL exchanges among them (the consecutive-BAD
+    # limit is 5)
+    badrun = st.lists(st.sampled_from([
+        b'x BOGUS\r\n', b'x AUTHENTICATE PLAIN\r\n', b'xx AUTHENTICATE LOGIN\r\n',
+        b'\r\n', b'x LOGIN\r\n', b'x AUTHENTICATE PLAIN =\r\n',
+        b'xyz AUTHENTICATE PLAIN\r\n']), min_size=4, max_size=7)
+    more = st.one_of(st.lists(line, max_size=6), st.lists(line, max_size=6),
+                     badrun)
     wire = st.tuples(line, st.integers(0, 2), conts, more,
                      st.sampled_from([False, False, False, True])).map(
         lambda t: {'kind': 'wire', 'data': t[0], 'state': t[1],
